@@ -109,6 +109,16 @@ def wrap_messages(payload: bytes):
     from han import common
 
     out = [("DlmsMessage", common.DlmsMessage(payload))]
+    if payload and payload.isascii() and b"(" in payload and b"!" not in payload and b"/" not in payload:
+        # a P1 data block also travels inside a readout: identification line + block + end line with CRC
+        from han import dlde
+        from mc.ref import p1 as RP
+
+        R = b"/ABC5xyz\r\n" + payload + b"!"
+        try:
+            out.append(("DataReadout", dlde.DataReadout(R + RP.crc_text(R) + b"\r\n")))
+        except Exception:  # noqa: BLE001
+            pass
     if 0 < len(payload) <= 2030:
         fr = RH.build_frame(0xA, 0, b"\x01", b"\x21", 0x13, payload)
         frames, _ = X.feed((True, True), [b"\x7e" + RH.stuff(fr) + b"\x7e"])
@@ -193,6 +203,14 @@ def judge(hist, key, history_genuine_same=True):
             esc.append(f"decode_message({wname}) escaped: {k2}")
             continue
         exp = res if payload else None
+        if wname == "DataReadout":
+            # a readout is decoded by the P1 decoder or not at all; whoever is named afterwards must be that decoder
+            p1ok = ind[names.index("P1")][0] == "ok"
+            if p1ok:
+                exp = dict(ind[names.index("P1")][1], meter_manufacturer_id="ABC", meter_type_id="xyz")
+                if not same_result(r2, exp) or b.previous_success_decoder != "P1":
+                    viol.append(f"decode_message(DataReadout) = {r2!r:.80} / state {b.previous_success_decoder}, expected the P1 decoder's result plus the identification fields and state P1")
+            continue
         if not same_result(r2, exp) or (payload and b.previous_success_decoder != after):
             viol.append(f"decode_message({wname}) = {r2!r:.60} / state {b.previous_success_decoder}, decode_message_payload = {res!r:.60} / state {after}")
     return viol, esc, after, res is not None
